@@ -1,6 +1,7 @@
 package checks
 
 import (
+	"errors"
 	"bytes"
 	"context"
 	"encoding/base64"
@@ -239,9 +240,115 @@ func runC03GrpcOpenTransport(c *mon.Case) {
 	c.Shard.Eval(fmt.Sprintf("grpc-open|%v", silent))
 }
 
+// flakyDeadlineProxy fails its failAt-th SetReadDeadline call (1-based).
+type flakyDeadlineProxy struct {
+	fakeProxy
+	calls, failAt int
+}
+
+func (d *flakyDeadlineProxy) SetReadDeadline(t time.Time) error {
+	d.calls++
+	if d.calls == d.failAt {
+		return errors.New("set read deadline: use of closed network connection (injected)")
+	}
+	return nil
+}
+
+// runC03GrpcSequence: "each side's static key is the one the other side stored
+// at pairing time" on the objects applications hold for a whole session - one
+// NoiseGrpcConn credentials object per party, serving connection after
+// connection. (1) The pairing. In two thirds of the cases the listener's
+// transport fails the call that clears the handshake read deadline, i.e. after
+// the noise handshake itself has completed and the initiator's key has been
+// stored: ServerHandshake reports an error for that connection. (2) A different
+// client that holds only the passphrase connects to the same credentials
+// object: it must be refused before the responder writes anything. (3) The
+// paired client reconnects: control, must complete with the key-based pattern.
+func runC03GrpcSequence(c *mon.Case) {
+	rng := c.Rng
+	pass := eng.Entropy(rng)
+	auth := authMarker(rng, 64)
+	keyA, keyS, keyB := eng.NewKey(rng), eng.NewKey(rng), eng.NewKey(rng)
+	cp := eng.NewMboxParty(keyA, nil, pass, nil, 0, 2)
+	sp := eng.NewMboxParty(keyS, nil, pass, auth, 0, 2)
+	failAt := []int{0, 2, 2}[c.Idx/56%3] // the second call is the one that clears the deadline
+	hs := func(cl, sv *eng.MboxParty, sFail int) (cerr, serr error, written int) {
+		da, db, _, b2a := sim.NewDuplexPair()
+		var wg sync.WaitGroup
+		wg.Add(2)
+		go func() {
+			defer wg.Done()
+			_, _, serr = sv.Noise.ServerHandshake(&flakyDeadlineProxy{fakeProxy: fakeProxy{db}, failAt: sFail})
+			if serr != nil {
+				db.In.Close()
+				db.Out.Close()
+			}
+		}()
+		go func() {
+			defer wg.Done()
+			_, _, cerr = cl.Noise.ClientHandshake(context.Background(), "", &fakeProxy{da})
+			if cerr != nil {
+				da.In.Close()
+				da.Out.Close()
+			}
+		}()
+		wg.Wait()
+		for _, w := range b2a.Written {
+			written += len(w)
+		}
+		da.In.Close()
+		da.Out.Close()
+		return
+	}
+	rep := map[string]any{"kind": "grpc-sequence", "listener_deadline_reset_fails": failAt != 0}
+	cerr, serr, _ := hs(cp, sp, failAt)
+	rep["pairing"] = fmt.Sprintf("client=%v server=%v", cerr, serr)
+	if cerr != nil || (failAt == 0 && serr != nil) {
+		c.Shard.Violate("grpc-sequence|control-failed", fmt.Sprintf("pairing with the same passphrase did not complete: client=%v server=%v", cerr, serr), rep)
+		return
+	}
+	if !keyEq(sp.CD.RemoteKey(), keyA.PubKey()) || !keyEq(cp.CD.RemoteKey(), keyS.PubKey()) {
+		c.Shard.Inconc("pairing did not store the keys (version below 2?)")
+		return
+	}
+	// (2) the intruder
+	ip := eng.NewMboxParty(keyB, nil, pass, nil, 0, 2)
+	icerr, iserr, iw := hs(ip, sp, 0)
+	rep["intruder"] = fmt.Sprintf("client=%v server=%v responder_bytes=%d", icerr, iserr, iw)
+	if iserr == nil {
+		c.Shard.Violate("grpc-sequence|responder-completed", "a paired listener completed a handshake with a different client that presented only the passphrase (same credentials object, after the pairing connection)", rep)
+	}
+	if iw != 0 {
+		c.Shard.Violate("grpc-sequence|responder-wrote", fmt.Sprintf("a paired listener emitted %d bytes of handshake response to a different client that presented only the passphrase", iw), rep)
+	}
+	if icerr == nil || ip.CD.AuthData() != nil {
+		c.Shard.Violate("grpc-sequence|initiator-completed", "a client that holds only the passphrase completed a handshake with a paired listener or holds its auth payload", rep)
+	}
+	if !keyEq(sp.CD.RemoteKey(), keyA.PubKey()) {
+		c.Shard.Violate("grpc-sequence|remote-key-changed", "the key the listener stored at pairing time was replaced", rep)
+	}
+	// (3) control: the paired client reconnects
+	rcerr, rserr, _ := hs(cp, sp, 0)
+	rep["reconnect"] = fmt.Sprintf("client=%v server=%v", rcerr, rserr)
+	if rcerr != nil || rserr != nil {
+		c.Shard.Violate("grpc-sequence|control-failed", fmt.Sprintf("the paired client could not reconnect: client=%v server=%v", rcerr, rserr), rep)
+	}
+	c.Shard.Count("mismatch_handshakes", 1)
+	c.Shard.Count("controls_completed", 2)
+	c.Shard.Count("grpc_credentials_sequences", 1)
+	c.Shard.Eval(fmt.Sprintf("grpc-seq|%d", failAt))
+	if c.Idx%112 == 17 {
+		c.Shard.Sample(rep)
+	}
+}
+
 func runC03(c *mon.Case) {
 	if c.Idx%56 == 9 {
 		runC03GrpcOpenTransport(c)
+		return
+	}
+	if c.Idx%56 == 17 || c.Idx%56 == 33 {
+		runC03GrpcSequence(c)
 		return
 	}
 	if c.Idx%8 == 5 {
